@@ -28,9 +28,11 @@ import (
 	"fmt"
 	"io"
 	"net"
+	"os"
 	"runtime"
 	"strings"
 	"sync"
+	"syscall"
 	"time"
 
 	"github.com/oasisprotocol/oasis-core/go/common"
@@ -196,7 +198,17 @@ var liveRuntimeID = common.NewTestNamespaceFromSeed([]byte("verif c16 live conne
 func liveOnce(host bool, data []byte) (class string, fail *specFailure) {
 	rearm()
 	baseline := runtime.NumGoroutine()
+	// The transport alternates between attempts: a synchronous in-memory pipe, and a kernel-buffered
+	// socket pair — there every frame of the stream is readable at once, so the dispatcher starts the
+	// handlers of a burst of frames back to back and they run concurrently with the waiting caller,
+	// which is what a burst of frames from a real runtime socket produces.
+	liveAttempt++
 	connA, connB := net.Pipe()
+	if liveAttempt%2 == 0 {
+		if a, b, err := socketPair(); err == nil {
+			connA, connB = a, b
+		}
+	}
 	conn, err := protocol.NewConnection(logger, liveRuntimeID, liveHandler{})
 	if err != nil {
 		panic(err)
@@ -384,6 +396,27 @@ func runLive(host bool, data []byte) string {
 
 var liveRetries int
 
+var liveAttempt int
+
+// socketPair returns the two ends of a connected AF_UNIX stream socket pair.
+func socketPair() (net.Conn, net.Conn, error) {
+	fds, err := syscall.Socketpair(syscall.AF_UNIX, syscall.SOCK_STREAM, 0)
+	if err != nil {
+		return nil, nil, err
+	}
+	var conns [2]net.Conn
+	for i, fd := range fds {
+		f := os.NewFile(uintptr(fd), "verif-socketpair")
+		c, err := net.FileConn(f)
+		_ = f.Close()
+		if err != nil {
+			return nil, nil, err
+		}
+		conns[i] = c
+	}
+	return conns[0], conns[1], nil
+}
+
 // liveSeeds: streams of well-formed frames, including what a misbehaving runtime may send:
 // responses nobody asked for, duplicated and late responses, unknown message types.
 func liveSeeds(w *world) [][]byte {
@@ -404,6 +437,11 @@ func liveSeeds(w *world) [][]byte {
 		cat(req(10, ping), req(11, info), req(12, protocol.Body{HostStorageSyncRequest: &protocol.HostStorageSyncRequest{}})),
 		cat(rsp(1, empty)),                                  // answers the outstanding host call (host mode), unsolicited otherwise
 		cat(rsp(1, empty), rsp(1, empty), req(10, ping)),    // duplicate response
+		// the same response replayed several times back to back (all copies reach the dispatcher before
+		// the waiting caller has consumed the first one)
+		cat(rsp(1, empty), rsp(1, empty), rsp(1, empty), req(10, ping)),
+		bytes.Repeat(rsp(1, errB), 16),
+		cat(bytes.Repeat(rsp(1, empty), 24), req(10, ping)),
 		cat(rsp(0xdeadbeef, empty), req(10, ping)),          // response with an unknown id
 		cat(req(10, ping), rsp(0, errB), rsp(2, errB)),      // late response to the finished handshake, response to a future id
 		cat(req(7, ping), req(7, ping), req(7, empty)),      // duplicate request ids
